@@ -41,6 +41,9 @@ pub enum Op {
     IterFold(usize, usize),
     IterRFold(usize, usize),
     IterMapCollect(usize, usize),
+    /// provided iterator methods an implementation may override, each with a closure that can panic:
+    /// 0 for_each, 1 find, 2 position, 3 all, 4 rev().for_each, 5 for-loop, 6 skip(1).for_each, 7 map().last(), 8 max_by_key, 9 rposition
+    IterAdapt(u8, usize, usize),
     CloneArr,
     CloneBox,
     CloneIter(usize, usize),
@@ -131,7 +134,10 @@ fn zip_run_out<A: Elem + Peek, B: Elem + Peek, O: Elem, N: ArrayLength>(form: u8
         14 => iz2!(b, &a),
         15 => iz2!(b, &mut a),
         16 => iz2!(&b, &a),
-        _ => iz2!(Box::new(b), Box::new(a)),
+        18 => iz2!(b, a),
+        19 => iz2!(&b, a),
+        17 => iz2!(Box::new(b), Box::new(a)),
+        _ => iz2!(&mut b, a),
     }
 }
 
@@ -209,7 +215,7 @@ fn run_op<T: Elem + Peek + Clone + Default, N: ArrayLength>(case: &Case) {
                 }),
             };
         }
-        Op::IterFold(front, back) | Op::IterRFold(front, back) | Op::IterMapCollect(front, back) | Op::CloneIter(front, back) => {
+        Op::IterFold(front, back) | Op::IterRFold(front, back) | Op::IterMapCollect(front, back) | Op::CloneIter(front, back) | Op::IterAdapt(_, front, back) => {
             let a: GenericArray<T, N> = GenericArray::generate(|i| T::mk(100 + i as u32));
             let mut it = a.into_iter();
             let mut held = vec![];
@@ -232,6 +238,75 @@ fn run_op<T: Elem + Peek + Clone + Default, N: ArrayLength>(case: &Case) {
                         registry::tick("iter rfold closure");
                         T::mk(mix2(acc.get(), x.get()))
                     });
+                }
+                Op::IterAdapt(which, ..) => {
+                    let mut kept: Vec<T> = vec![];
+                    match which % 10 {
+                        0 => it.for_each(|x| {
+                            registry::tick("for_each closure");
+                            kept.push(x)
+                        }),
+                        1 => {
+                            let f = it.find(|x| {
+                                registry::tick("find predicate");
+                                x.get() == u32::MAX
+                            });
+                            kept.extend(f);
+                        }
+                        2 => {
+                            let _ = it.position(|x| {
+                                registry::tick("position predicate");
+                                let hit = x.get() == u32::MAX;
+                                kept.push(x);
+                                hit
+                            });
+                        }
+                        3 => {
+                            let _ = it.all(|x| {
+                                registry::tick("all predicate");
+                                drop(x);
+                                true
+                            });
+                        }
+                        4 => it.rev().for_each(|x| {
+                            registry::tick("rev for_each closure");
+                            kept.push(x)
+                        }),
+                        5 => {
+                            for x in it {
+                                registry::tick("for loop body");
+                                kept.push(x);
+                            }
+                        }
+                        6 => it.skip(1).for_each(|x| {
+                            registry::tick("skip for_each closure");
+                            drop(x)
+                        }),
+                        7 => {
+                            let l = it
+                                .map(|x| {
+                                    registry::tick("map closure");
+                                    x
+                                })
+                                .last();
+                            kept.extend(l);
+                        }
+                        8 => {
+                            let m = it.max_by_key(|x| {
+                                registry::tick("max_by_key closure");
+                                x.get()
+                            });
+                            kept.extend(m);
+                        }
+                        _ => {
+                            let _ = it.rposition(|x| {
+                                registry::tick("rposition predicate");
+                                drop(x);
+                                false
+                            });
+                        }
+                    }
+                    drop(kept);
                 }
                 Op::IterMapCollect(..) => {
                     let _v: Vec<T> = it
@@ -494,6 +569,11 @@ fn instances(thorough: bool) -> Vec<Case> {
                 if f + b <= 2 {
                     ops.push(Op::IterMapCollect(f, b));
                 }
+                if n <= 8 || (f + b) % 3 == 0 {
+                    for w in 0..10u8 {
+                        ops.push(Op::IterAdapt(w, f, b));
+                    }
+                }
                 // clone_from into destinations in a few positions (fresh, front-consumed, back-consumed, exhausted)
                 for (f2, b2) in [(0usize, 0usize), (1, 0), (0, 1), (n / 2, 0), (n, 0), (1, 1)] {
                     if n <= 8 || (f + b) % 2 == 0 {
@@ -520,7 +600,7 @@ fn instances(thorough: bool) -> Vec<Case> {
             }
         }
         if ziplens.contains(&n) {
-            for form in 0..18u8 {
+            for form in 0..21u8 {
                 for (lk, rk) in [(K3::Tracked, K3::Tracked), (K3::Tracked, K3::U32), (K3::U32, K3::Tracked), (K3::Tracked, K3::Zst), (K3::Zst, K3::Tracked), (K3::U32, K3::U32)] {
                     out.push(Case { op: Op::Zip(form, lk, rk), n, zst: false, k: None });
                 }
@@ -597,7 +677,7 @@ pub fn main() {
             prop: PROP,
             level: "fault_enumeration",
             rule: "operation instance = (operation and receiver/argument form, N, element kind); for each instance a clean run counts the K invocations of caller code (closure, Clone::clone, Default::default, source next()), then the instance is re-run once per crash point k in 0..K with a panic injected at exactly that invocation (every k for K <= 80, else first/last/middle + a seeded spread). \
-                   Operations: generate x4 forms, map x4, zip x10 forms plus 8 direct inverted_zip / inverted_zip2 call forms x 6 element-kind pairs (drop-tracked / plain / zero-sized, selecting the needs_drop branches) with a drop-tracked output, and x 8 (lhs, rhs, output) kind triples with a plain or unit output, fold x4, clone_from for arrays, boxed arrays and by-value iterators (source and destination in several positions), iterator fold/rfold/map-collect/Clone from every (front, back) for N<=8, Clone for GenericArray and Box<GenericArray>, Default, default_boxed, collect x4 targets x 3 produced counts x 3 hints from a scripted source that panics in next(), and the internals builders/consumer abandoned at every position. \
+                   Operations: generate x4 forms, map x4, zip x10 forms plus 11 direct inverted_zip / inverted_zip2 call forms (incl. an owned left operand) x 6 element-kind pairs (drop-tracked / plain / zero-sized, selecting the needs_drop branches) with a drop-tracked output, and x 8 (lhs, rhs, output) kind triples with a plain or unit output, fold x4, clone_from for arrays, boxed arrays and by-value iterators (source and destination in several positions), iterator fold/rfold/map-collect/Clone and ten provided adaptor methods with closures (for_each, find, position, all, rev, for-loop, skip, map().last(), max_by_key, rposition) from every (front, back) for N<=8, Clone for GenericArray and Box<GenericArray>, Default, default_boxed, collect x4 targets x 3 produced counts x 3 hints from a scripted source that panics in next(), and the internals builders/consumer abandoned at every position. \
                    Oracle: the panic propagates with the injected payload, and once every local is gone each element ever created (inputs, partial outputs, values handed to the closure, clones) has been dropped exactly once, none as garbage. \
                    non-trivial = the injected panic fired with 0 < k < K-1 (a built prefix and an unconsumed suffix both exist); distinct = distinct (instance, k)",
             exhaustive: false,
